@@ -90,8 +90,18 @@ pub fn transmute_ptr(cx: &mut Ctx, v: Tr, dst: Ty) -> R<Tr> {
   Ok(Tr { code, ty, pure })
 }
 
-pub fn index_expr(_cx: &mut Ctx, _ix: &syn::ExprIndex, _borrow: bool) -> R<Tr> {
-  Err("index expression".into())
+pub fn index_expr(cx: &mut Ctx, ix: &syn::ExprIndex, borrow: bool) -> R<Tr> {
+  // &mut v[..] with v a vector-with-contents: the slice of all its elements
+  if let (true, syn::Expr::Path(bp), syn::Expr::Range(rg)) = (borrow, &*ix.expr, &*ix.index) {
+    if rg.start.is_none() && rg.end.is_none() && bp.path.segments.len() == 1 {
+      let n = bp.path.segments[0].ident.to_string();
+      if let Some(Ty::BVec(t)) = cx.lookup_pub(&n) {
+        let tt = ty_term(&t, &cx.cty_names())?;
+        return Ok(Tr::pure(format!("(bvec_slice {} {})", tt, vname(&n)), Ty::Ref(Box::new(Ty::SliceOf(t)))));
+      }
+    }
+  }
+  Err(format!("index expression `{}`", quote::quote!(#ix)))
 }
 
 pub fn field_expr(cx: &mut Ctx, f: &syn::ExprField) -> R<Tr> {
@@ -212,6 +222,10 @@ pub fn std_call(cx: &mut Ctx, full: &str, _turbofish: &[Ty], args: &[&syn::Expr]
       let (code, pure) = cx.seq_pub(vec![n], |v| (format!("(layout_array_m {} {})", t, v[0]), true));
       // Result<Layout, LayoutError>: the error carries no information
       Ok(Some(Tr { code, ty: Ty::Result(Box::new(Ty::Layout), Box::new(Ty::Unit)), pure }))
+    }
+    ("Vec::new", 0) if matches!(_expected, Some(Ty::BVec(_))) => {
+      let t = match _expected { Some(Ty::BVec(t)) => (**t).clone(), _ => unreachable!() };
+      Ok(Some(Tr::pure("bvec_empty", Ty::BVec(Box::new(t)))))
     }
     ("Vec::new", 0) => {
       let elem = match _expected { Some(Ty::Vec_(e)) => (**e).clone(), other => return Err(format!("Vec::new() of unknown element type ({:?})", other)) };
@@ -430,7 +444,7 @@ pub fn translate_const_asserts(im: &syn::ItemImpl) -> R<Vec<ItemOut>> {
         let cond = args.first().ok_or("assert!()")?;
         let mut cx = Ctx {
           ms: &MS, sigs: &sigs, generics: generics.clone(), vars: vec![], ret: Ty::Unit, fresh: 0,
-          callees: vec![], self_ty: None,
+          callees: vec![], self_ty: None, aliases: vec![],
         };
         let t = match cx.expr(cond, Some(&Ty::Bool)) {
           Ok(t) if t.ty == Ty::Bool => t,
@@ -590,7 +604,7 @@ fn translate_impl_method(ms: &ModuleSpec, sigs: &HashMap<(String, String), FnSig
   let generics: Vec<crate::Generic> = gnames.iter().map(|n| crate::Generic { name: n.clone(), is_cty: false, maybe_unsized: false }).collect();
   if is_drop {
     // fn drop(&mut self) { if COND { unsafe { dealloc(P, L) }; } }  ==>  the dealloc call made, if any
-    let mut cx = Ctx { ms, sigs, generics: generics.clone(), vars: params.clone(), ret: Ty::Unit, fresh: 0, callees: vec![], self_ty: Some(self_ty.clone()) };
+    let mut cx = Ctx { ms, sigs, generics: generics.clone(), vars: params.clone(), ret: Ty::Unit, fresh: 0, callees: vec![], self_ty: Some(self_ty.clone()), aliases: vec![] };
     let stmts = &m.block.stmts;
     if stmts.len() != 1 { return Err("drop: expected a single `if`".into()); }
     let ife = match &stmts[0] { syn::Stmt::Expr(syn::Expr::If(i), _) => i, _ => return Err("drop: expected a single `if`".into()) };
